@@ -537,10 +537,15 @@ fn check_case(sb: &Sandbox, opts: &Opts, idx: usize, case: &Case, per_op: usize,
         };
         if !pool.is_empty() {
             let clean_spec = ProcSpec { entropy, readdir: entropy, ..Default::default() };
-            if enumerate && op.entry == "run" {
-                let mut budget = 6000usize;
+            if op.entry == "run" {
+                // thorough: every truncation point of every source (budgeted); quick: of every
+                // small source file (a half-saved file is the most common stored-byte fault)
+                let mut budget = if enumerate { 6000usize } else if case.name.starts_with("gen/") { 0 } else { 1500 };
                 for path in &pool {
                     let len = base.get(*path).map(|b| b.len()).unwrap_or(0);
+                    if !enumerate && len > 1500 {
+                        continue;
+                    }
                     for at in 0..len {
                         if budget == 0 {
                             break;
